@@ -158,7 +158,7 @@ def family_scripts(rng):
             ["set", ["l", "y"], ["ch", "line", o if not zero else ["i", 1], ["i", 0], ["l", "x"]]], ["set", ["l", "y"], ["ch", "char", ["i", 1], o, ["l", "x"]]],
             ["set", ["l", "y"], ["ch", "item", ["i", 1], ["i", 0], o]], ["set", ["l", "y"], ["op", "hasTail", o if not big else ["i", 7]]],
             ["set", ["l", "y"], ["the", "field", 2, o]],
-            ["del", ["ch", "word", o, ["i", 0], ["fld", ["i", 2]]]], ["hil", ["ch", "word", ["i", 2], ["i", 0], ["fld", o]]],
+            ["del", ["ch", "word", o if not zero else ["i", 1], ["i", 0], ["fld", ["i", 2]]]], ["hil", ["ch", "word", ["i", 2], ["i", 0], ["fld", o]]],
         ]
     # object-index positions with literal / variable indices (non-literal ones: F20, generated separately)
     for idx in (["i", 1], ["i", 300], ["s", S("Fish.mov")], ["l", "x"], ["p", "a"], ["g", "gCount"]):
